@@ -50,7 +50,7 @@ func (q QueryOp) SQL() (string, map[string]any) {
 			` (CASE WHEN xattrs IS NOT NULL AND json_valid(CAST(xattrs AS TEXT)) THEN CAST(xattrs AS TEXT)->'$._sync.seq' END) AS s FROM $_keyspace`
 	case "rawbody":
 		// the body projected as it is stored (JSON text inside the row), for documents whose body is JSON
-		s = `SELECT ` + qCols + `, body AS doc FROM $_keyspace WHERE json_valid(CAST(body AS TEXT))`
+		s = `SELECT ` + qCols + `, body AS doc FROM $_keyspace WHERE json_valid(CAST(body AS TEXT)) AND instr(body, x'00') = 0`
 	case "noxattrs":
 		// documents without extended attributes: the column is NULL for them (not an empty object)
 		s = `SELECT ` + qCols + ` FROM $_keyspace WHERE xattrs IS NULL`
